@@ -14,6 +14,7 @@ git -C /verif worktree add --detach "$D/verif" HEAD >/dev/null 2>&1 || { echo "$
 # point every path dependency at the patched copy
 grep -rl --include=Cargo.toml '/repo/' "$D/verif/harness" | xargs sed -i "s#/repo/#$D/repo/#g"
 export VERIF_REPO="$D/repo"
+export CARGO_TARGET_DIR=/tmp/mt/target   # shared by successive (sequential) mutant runs: dependencies stay cached
 mkdir -p /tmp/mt/results
 for prop in "$@"; do
   ( cd "$D/verif" && bin/check "$prop" --tier quick > /tmp/mt/results/${L}_${prop}.out 2> /tmp/mt/results/${L}_${prop}.err ); rc=$?
